@@ -134,6 +134,7 @@ def analyse(ctx, b, want_ret=False):
 
 
 def run(ctx, rep):
+    _RET.clear()        # per tree: the thorough tier analyses several trees in one process
     r = rep.rule("R-C13-nonempty", "a failure always carries a diagnostic: every Err(Vec<Diagnostic>) built in the product crates holds a vector that is "
                                    "non-empty on every path reaching it (is_empty test, push, vec![x,..], or the payload of another such Err)",
                  floor=15, floor_what="Err(Vec<Diagnostic>) constructions")
